@@ -1,2 +1,3 @@
 import Arp.Props.C10Scale
+import Arp.Props.C10TruncRound
 /-! # C10 — trunc, round, scale, abs, neg (scale/abs/neg in `C10Scale.lean`, trunc/round in `C10TruncRound.lean`) -/
